@@ -12,7 +12,8 @@ function hook::run() {
     export BINDING_CONTEXT_CURRENT_BINDING=$(context::jq -r '.binding // "unknown"')
 
     HANDLERS=$(hook::_get_possible_handler_names)
-    HANDLERS="${HANDLERS} __main__"
+    # one candidate per line: a binding name may contain blanks
+    HANDLERS="${HANDLERS}"$'\n'"__main__"
 
     hook::_run_first_available_handler "${HANDLERS}"
   done
@@ -69,12 +70,16 @@ function hook::_get_possible_handler_names() {
 function hook::_run_first_available_handler() {
   HANDLERS="$1"
 
-  for handler in ${HANDLERS}; do
-    if type $handler >/dev/null 2>&1; then
-      ($handler) # brackets are to run handler as a subprocess
+  local handler
+  # the list is read from fd 3, so that the handler keeps the hook's own stdin
+  while IFS= read -r handler <&3; do
+    [[ -n "${handler}" ]] || continue
+    # only functions are handlers: 'type' also succeeds for keywords, builtins and commands
+    if declare -F -- "${handler}" >/dev/null 2>&1; then
+      ("${handler}") # brackets are to run handler as a subprocess
       return $?
     fi
-  done
+  done 3<<< "${HANDLERS}"
 
   >&2 printf "ERROR: Can't find any handler from the list: %s\n." "$(echo ${HANDLERS} | sed -E 's/[[:space:]]+/, /g')"
   return 1
